@@ -159,6 +159,14 @@ class X:
         data = bytes(data)
         return self.alloc(len(data), "h" + data.hex()) if data else self.alloc(0, "u")
 
+    def clone(self, b):
+        """exact-size copy of a whole buffer made inside the executor (sanitizer shadow travels with it)"""
+        id = self.freeids.pop() if self.freeids else self.nid
+        if id == self.nid:
+            self.nid += 1
+        self._cmd("CP %d %d" % (id, b.id))
+        return Buf(self, id, b.size)
+
     def out(self, size):
         return self.alloc(size, "u")
 
@@ -189,6 +197,9 @@ class X:
         self._cmd("%s %d %d %d" % ("MU" if undefined else "MD", b.id, b.off + off, n))
 
     def call(self, fn, *args, ret="i"):
+        fast = self.info.get("fast") == "1"
+        if fast and fn.endswith("_fast"):
+            fn = fn[:-5]            # SAFE_FAST builds: FAST(f) is f, SAFE(f) is f_safe
         parts = ["C", fn]
         for a in args:
             if a is None:
@@ -196,7 +207,7 @@ class X:
             elif isinstance(a, Buf):
                 parts.append("b%d%+d" % (a.id, a.off) if a.off else "b%d" % a.id)
             elif isinstance(a, Sym):
-                parts.append("s" + a.name)
+                parts.append("s" + (a.name[:-5] if fast and a.name.endswith("_fast") else a.name))
             elif isinstance(a, bool):
                 parts.append("i%d" % int(a))
             elif isinstance(a, int):
